@@ -1,1 +1,295 @@
-(* placeholder *)
+(* M5j -- built-in jobs.  Executable model of FunctionJob.Execute (job/function_job.go),
+   ShellJob.Execute (job/shell_job.go), CurlJob.Execute (job/curl_job.go) and the Status constants
+   (job/job_status.go).  Definitions only; proofs are in JobsProofs.v.
+   Everything read from the source by genparams (Gen/Params.v) is used here: the branch tests,
+   the status constants of each branch, the HTTP code comparisons, what is stored in which field,
+   whether the outcome is computed inside the mutex, whether all field assignments lie in one
+   critical section, how many callbacks follow the unlock, whether the previous body is closed. *)
+From Coq Require Import ZArith List Bool Arith.
+Require Import QzJobs.Gen.Params.
+Import ListNotations.
+Open Scope nat_scope.
+
+Definition cmp (op : cmp_op) (a b : Z) : bool :=
+  match op with
+  | OpGe => (b <=? a)%Z | OpGt => (b <? a)%Z | OpLe => (a <=? b)%Z | OpLt => (a <? b)%Z
+  | OpEq => (a =? b)%Z | OpNe => negb (a =? b)%Z
+  end.
+
+(* `x <op> nil` for a pointer/interface x; only == and != are meaningful *)
+Definition nil_test (op : cmp_op) (is_nil : bool) : bool :=
+  match op with OpNe => negb is_nil | OpEq => is_nil | _ => false end.
+
+Definition is_none {A} (x : option A) : bool := match x with None => true | Some _ => false end.
+
+(* ------------------------------------------------------------------ FunctionJob *)
+Section FunctionJob.
+  Variables (R E : Type) (zero : R).
+  (* what f.function(ctx) returned: (result, err); err = None is Go's nil *)
+  Definition fn_outcome : Type := R * option E.
+  Definition pick_val (v : val_src) (res : R) : R := match v with VZero => zero | VResult => res end.
+  Definition pick_err (e : err_src) (err : option E) : option E := match e with ENil => None | EErr => err end.
+  (* the tuple (jobStatus, result, err) stored under the mutex *)
+  Definition fn_commit (o : fn_outcome) : Z * R * option E :=
+    let '(res, err) := o in
+    let '(st, vs, es) := if nil_test fn_cond_op (is_none err) then fn_then else fn_else in
+    (st, pick_val vs res, pick_err es err).
+  (* what Execute returns *)
+  Definition fn_return (o : fn_outcome) : option E := if fn_returns_call_err then snd o else None.
+  Definition fn_initial : Z * R * option E := (go_StatusNA, zero, None).
+End FunctionJob.
+
+(* ------------------------------------------------------------------ ShellJob *)
+(* how cmd.Run() ended (os/exec, os.ProcessState) *)
+Inductive run_result :=
+| Exited (code : Z)      (* the shell exited with this status *)
+| Killed                 (* terminated by a signal, e.g. because ctx was cancelled *)
+| NotStarted.            (* the process could not be started (ProcessState == nil) *)
+
+(* os/exec: Run returns nil iff the command started, ran and exited with status 0 *)
+Definition run_err (r : run_result) : option run_result :=
+  match r with Exited c => if (c =? 0)%Z then None else Some r | _ => Some r end.
+(* ProcessState.ExitCode(): the exit status, or -1 if signalled / nil *)
+Definition exit_code (r : run_result) : Z := match r with Exited c => c | _ => (-1)%Z end.
+
+Section ShellJob.
+  Variable S : Type.   (* captured output *)
+  Definition sh_outcome : Type := run_result * S * S.   (* how Run ended, stdout, stderr *)
+  Definition sh_status (r : run_result) : Z :=
+    if nil_test sh_cond_op (is_none (run_err r)) then sh_then_status else sh_else_status.
+  (* the tuple (stdout, stderr, exitCode, jobStatus) stored under the mutex *)
+  Definition sh_commit (o : sh_outcome) : S * S * Z * Z :=
+    let '(r, out, err) := o in (out, err, exit_code r, sh_status r).
+  Definition sh_return (o : sh_outcome) : option run_result :=
+    let '(r, _, _) := o in if sh_returns_run_err then run_err r else None.
+End ShellJob.
+
+(* ------------------------------------------------------------------ CurlJob *)
+Definition http_code_ok (c : Z) : bool :=
+  forallb (fun oc => cmp (fst oc) c (snd oc)) cu_code_cmps.
+
+Section CurlJob.
+  Variable E : Type.
+  (* what httpClient.Do returned: response (status code, body open?) and err *)
+  Definition cu_outcome : Type := option (Z * bool) * option E.
+  Definition cu_status (resp : option (Z * bool)) : Z :=
+    match resp with
+    | Some (c, _) => if http_code_ok c then cu_then_status else cu_else_status
+    | None => if cu_nil_guard then cu_else_status else (-1)%Z  (* no guard: nil dereference *)
+    end.
+  (* the pair (response, jobStatus) stored under the mutex *)
+  Definition cu_commit (o : cu_outcome) : option (Z * bool) * Z := (fst o, cu_status (fst o)).
+  Definition cu_return (o : cu_outcome) : option E := if cu_returns_do_err then snd o else None.
+  Definition cu_body (o : cu_outcome) : nat := match fst o with Some (_, true) => 1 | _ => 0 end.
+End CurlJob.
+
+(* ------------------------------------------------------------------ concurrent executions *)
+(* Any number of threads (ids are nat) execute ONE job object.  O = type of raw outcomes (what
+   the user function / the shell / the HTTP client produced).  A field of the job object is
+   represented by who wrote it last: (thread, outcome); its value is the corresponding component
+   of the job's commit function applied to that outcome. *)
+Record jcfg := {
+  jc_in_lock : bool;     (* the outcome is produced while holding mtx (CurlJob) or before (Function, Shell) *)
+  jc_nfields : nat;      (* number of fields assigned in the commit *)
+  jc_split : bool;       (* the field assignments are NOT all in one critical section (never in the source) *)
+  jc_ncb : nat;          (* callback invocations after the unlock *)
+  jc_close_prev : bool   (* the previous response's body is closed before Do *)
+}.
+
+Section JobLTS.
+  Variable O : Type.
+  Variable body : O -> nat.   (* 1 if the outcome carries a response with an open body *)
+
+  Inductive jpc :=
+  | JIdle
+  | JComputed (o : O)            (* outcome known, lock not yet taken *)
+  | JLocked                      (* lock held, outcome not yet produced (CurlJob before Do) *)
+  | JWriting (o : O) (k : nat)   (* lock held, fields 0..k-1 written *)
+  | JGap (o : O) (k : nat)       (* split variant only: lock released with fields k.. unwritten *)
+  | JUnlocked (o : O) (c : nat). (* commit complete, c callbacks made *)
+
+  Inductive jev := JEvCommit (t : nat) (o : O) | JEvCallback (t : nat) | JEvReturn (t : nat) (o : O).
+
+  Record jstate := {
+    j_lock : option nat;               (* owner of mtx *)
+    j_pc : nat -> jpc;
+    j_vis : nat -> option (nat * O);   (* per field: last writer and its outcome (None = initial value) *)
+    j_last : option (nat * O);         (* the execution whose commit completed last *)
+    j_open : nat;                      (* response bodies obtained from Do and not closed *)
+    j_log : list jev                   (* newest first *)
+  }.
+
+  Definition jupd (f : nat -> jpc) (t : nat) (p : jpc) : nat -> jpc := fun u => if Nat.eqb u t then p else f u.
+  Definition vupd (f : nat -> option (nat * O)) (k : nat) (v : option (nat * O)) := fun i => if Nat.eqb i k then v else f i.
+  Definition body_of (x : option (nat * O)) : nat := match x with Some (_, o) => body o | None => 0 end.
+
+  Inductive jlabel :=
+  | JCompute (t : nat) (o : O)   (* the function / the command finishes with outcome o, outside the lock *)
+  | JLock (t : nat)
+  | JDo (t : nat) (o : O)        (* inside the lock: close the previous body, Do returns outcome o *)
+  | JWrite (t : nat)             (* assign the next field *)
+  | JSplit (t : nat)             (* split variant only: unlock in the middle of the assignments *)
+  | JUnlock (t : nat)
+  | JCallback (t : nat)
+  | JReturn (t : nat).
+
+  Definition jinit : jstate :=
+    {| j_lock := None; j_pc := fun _ => JIdle; j_vis := fun _ => None; j_last := None; j_open := 0; j_log := [] |}.
+
+  Definition set_pc (s : jstate) (t : nat) (p : jpc) : jstate :=
+    {| j_lock := j_lock s; j_pc := jupd (j_pc s) t p; j_vis := j_vis s; j_last := j_last s;
+       j_open := j_open s; j_log := j_log s |}.
+
+  Definition jstep (c : jcfg) (s : jstate) (a : jlabel) : option jstate :=
+    match a with
+    | JCompute t o =>
+        if jc_in_lock c then None else
+          match j_pc s t with JIdle => Some (set_pc s t (JComputed o)) | _ => None end
+    | JLock t =>
+        match j_lock s with
+        | Some _ => None
+        | None =>
+            match j_pc s t with
+            | JIdle => if jc_in_lock c then
+                         Some {| j_lock := Some t; j_pc := jupd (j_pc s) t JLocked; j_vis := j_vis s;
+                                 j_last := j_last s; j_open := j_open s; j_log := j_log s |}
+                       else None
+            | JComputed o => Some {| j_lock := Some t; j_pc := jupd (j_pc s) t (JWriting o 0); j_vis := j_vis s;
+                                     j_last := j_last s; j_open := j_open s; j_log := j_log s |}
+            | JGap o k => Some {| j_lock := Some t; j_pc := jupd (j_pc s) t (JWriting o k); j_vis := j_vis s;
+                                  j_last := j_last s; j_open := j_open s; j_log := j_log s |}
+            | _ => None
+            end
+        end
+    | JDo t o =>
+        match j_pc s t with
+        | JLocked => Some {| j_lock := j_lock s; j_pc := jupd (j_pc s) t (JWriting o 0); j_vis := j_vis s;
+                             j_last := j_last s;
+                             j_open := (if jc_close_prev c then j_open s - body_of (j_vis s 0) else j_open s) + body o;
+                             j_log := j_log s |}
+        | _ => None
+        end
+    | JWrite t =>
+        match j_pc s t with
+        | JWriting o k =>
+            if k <? jc_nfields c then
+              Some {| j_lock := j_lock s; j_pc := jupd (j_pc s) t (JWriting o (Datatypes.S k));
+                      j_vis := vupd (j_vis s) k (Some (t, o)); j_last := j_last s; j_open := j_open s; j_log := j_log s |}
+            else None
+        | _ => None
+        end
+    | JSplit t =>
+        if jc_split c then
+          match j_pc s t with
+          | JWriting o k =>
+              if (0 <? k) && (k <? jc_nfields c) then
+                Some {| j_lock := None; j_pc := jupd (j_pc s) t (JGap o k); j_vis := j_vis s;
+                        j_last := j_last s; j_open := j_open s; j_log := j_log s |}
+              else None
+          | _ => None
+          end
+        else None
+    | JUnlock t =>
+        match j_pc s t with
+        | JWriting o k =>
+            if Nat.eqb k (jc_nfields c) then
+              Some {| j_lock := None; j_pc := jupd (j_pc s) t (JUnlocked o 0); j_vis := j_vis s;
+                      j_last := Some (t, o); j_open := j_open s; j_log := JEvCommit t o :: j_log s |}
+            else None
+        | _ => None
+        end
+    | JCallback t =>
+        match j_pc s t with
+        | JUnlocked o n =>
+            if n <? jc_ncb c then
+              Some {| j_lock := j_lock s; j_pc := jupd (j_pc s) t (JUnlocked o (Datatypes.S n)); j_vis := j_vis s;
+                      j_last := j_last s; j_open := j_open s; j_log := JEvCallback t :: j_log s |}
+            else None
+        | _ => None
+        end
+    | JReturn t =>
+        match j_pc s t with
+        | JUnlocked o n =>
+            if Nat.eqb n (jc_ncb c) then
+              Some {| j_lock := j_lock s; j_pc := jupd (j_pc s) t JIdle; j_vis := j_vis s;
+                      j_last := j_last s; j_open := j_open s; j_log := JEvReturn t o :: j_log s |}
+            else None
+        | _ => None
+        end
+    end.
+
+  Fixpoint jrun (c : jcfg) (s : jstate) (tr : list jlabel) : option jstate :=
+    match tr with
+    | [] => Some s
+    | a :: tr' => match jstep c s a with Some s' => jrun c s' tr' | None => None end
+    end.
+
+  Definition holds_lock (p : jpc) : bool := match p with JLocked | JWriting _ _ => true | _ => false end.
+
+  Fixpoint last_commit (l : list jev) : option (nat * O) :=
+    match l with
+    | [] => None
+    | JEvCommit t o :: _ => Some (t, o)
+    | _ :: l' => last_commit l'
+    end.
+
+  Fixpoint jcount (p : jev -> bool) (l : list jev) : nat :=
+    match l with [] => 0 | e :: l' => (if p e then 1 else 0) + jcount p l' end.
+  Definition is_commit (t : nat) (e : jev) : bool := match e with JEvCommit u _ => Nat.eqb u t | _ => false end.
+  Definition is_callback (t : nat) (e : jev) : bool := match e with JEvCallback u => Nat.eqb u t | _ => false end.
+  Definition is_jreturn (t : nat) (e : jev) : bool := match e with JEvReturn u _ => Nat.eqb u t | _ => false end.
+End JobLTS.
+
+Arguments JIdle {O}. Arguments JLocked {O}.
+Arguments JCompute {O}. Arguments JLock {O}. Arguments JDo {O}. Arguments JWrite {O}. Arguments JSplit {O}.
+Arguments JUnlock {O}. Arguments JCallback {O}. Arguments JReturn {O}.
+Arguments JEvCommit {O}. Arguments JEvCallback {O}. Arguments JEvReturn {O}.
+Arguments jinit {O}.
+Arguments JComputed {O}. Arguments JWriting {O}. Arguments JGap {O}. Arguments JUnlocked {O}.
+Arguments j_lock {O}. Arguments j_pc {O}. Arguments j_vis {O}. Arguments j_last {O}. Arguments j_open {O}. Arguments j_log {O}.
+Arguments jstep {O}. Arguments jrun {O}. Arguments jupd {O}. Arguments vupd {O}. Arguments body_of {O}.
+Arguments holds_lock {O}. Arguments last_commit {O}. Arguments jcount {O}.
+Arguments is_commit {O}. Arguments is_callback {O}. Arguments is_jreturn {O}. Arguments set_pc {O}.
+
+(* the configurations of the three jobs, from the source *)
+Definition fn_cfg : jcfg :=
+  {| jc_in_lock := negb fn_call_before_lock; jc_nfields := 3; jc_split := negb fn_commit_locked;
+     jc_ncb := 0; jc_close_prev := false |}.
+Definition sh_cfg (with_callback : bool) : jcfg :=
+  {| jc_in_lock := negb sh_run_before_lock; jc_nfields := 4; jc_split := negb sh_commit_locked;
+     jc_ncb := if with_callback then (if sh_callback_after_unlock then sh_callback_calls else 0) else 0;
+     jc_close_prev := false |}.
+Definition cu_cfg (with_callback : bool) : jcfg :=
+  {| jc_in_lock := cu_do_under_lock; jc_nfields := 2; jc_split := negb cu_commit_locked;
+     jc_ncb := if with_callback then (if cu_callback_after_unlock then cu_callback_calls else 0) else 0;
+     jc_close_prev := cu_closes_prev_body |}.
+
+(* the tuple a reader sees, field by field, for each job *)
+Definition field_of {O A} (s : jstate O) (k : nat) (init : A) (proj : O -> A) : A :=
+  match j_vis s k with Some (_, o) => proj o | None => init end.
+
+Definition fn_visible {R E} (zero : R) (s : jstate (fn_outcome R E)) : Z * R * option E :=
+  (field_of s 0 go_StatusNA (fun o => fst (fst (fn_commit R E zero o))),
+   field_of s 1 zero (fun o => snd (fst (fn_commit R E zero o))),
+   field_of s 2 None (fun o => snd (fn_commit R E zero o))).
+
+Definition sh_visible {S} (empty : S) (s : jstate (sh_outcome S)) : S * S * Z * Z :=
+  (field_of s 0 empty (fun o => fst (fst (fst (sh_commit S o)))),
+   field_of s 1 empty (fun o => snd (fst (fst (sh_commit S o)))),
+   field_of s 2 0%Z (fun o => snd (fst (sh_commit S o))),
+   field_of s 3 go_StatusNA (fun o => snd (sh_commit S o))).
+
+Definition cu_visible {E} (s : jstate (cu_outcome E)) : option (Z * bool) * Z :=
+  (field_of s 0 None (fun o => fst (cu_commit E o)),
+   field_of s 1 go_StatusNA (fun o => snd (cu_commit E o))).
+
+(* ---- entry points for the correspondence check (evaluated inside Coq on observed cases) ---- *)
+(* observed: HTTP code (or -1 for a nil response) and the status the job reported *)
+Definition cu_status_of_code (code : Z) : Z :=
+  cu_status (if (code <? 0)%Z then None else Some (code, true)).
+Definition sh_status_of_exit (code : Z) : Z := sh_status (if (code <? 0)%Z then Killed else Exited code).
+Definition sh_err_nil_of_exit (code : Z) : bool := is_none (run_err (if (code <? 0)%Z then Killed else Exited code)).
+Definition fn_status_of (err_is_nil : bool) : Z :=
+  fst (fst (fn_commit unit unit tt (tt, if err_is_nil then None else Some tt))).
+Definition fn_result_kept (err_is_nil : bool) : bool :=
+  match snd (fst (fn_commit bool unit false (true, if err_is_nil then None else Some tt))) with true => true | false => false end.
